@@ -442,6 +442,8 @@ class Aff:
                 msg = t.j["msg"]
                 if msg == "BoundsCheck":
                     c = comparison(cond)
+                    if c and c[0] == ">":
+                        c = ("<", c[2], c[1])
                     if c and c[0] == "<":
                         out.append((blk.idx, "index", "%s < %s" % (fmt_short(c[1]), fmt_short(c[2])), [("lt", self.value(c[1]), self.value(c[2]), "index in bounds")], t.line))
                     else:
